@@ -10,9 +10,11 @@ package main
 
 import (
 	"fmt"
+	"strings"
 	"sync"
 
 	"github.com/daeuniverse/dae/pkg/config_parser"
+	"github.com/daeuniverse/dae/verifx/vroute"
 	"github.com/mohae/deepcopy"
 )
 
@@ -192,4 +194,41 @@ func sectionsText(secs []*config_parser.Section) string {
 		s += x.String(false, true) + "\n"
 	}
 	return s
+}
+
+// selfCheckAssembly: for every alphabet symbol, paired with another one, the document assembled from the
+// once-parsed rules must be identical to what config_parser.Parse produces for the complete text.
+// A difference means the harness shortcut is wrong (exit 2), never a violation.
+func selfCheckAssembly(all []vroute.Rule, d *dnsLeg) error {
+	for i := range all {
+		prog := &vroute.Program{Fallback: trafficFallback, Rules: []vroute.Rule{all[i], all[(i+7)%len(all)]}}
+		parsed, err := config_parser.Parse(prog.ConfigText())
+		if err != nil {
+			return fmt.Errorf("traffic list does not parse: %v: %s", err, prog.OneLine())
+		}
+		if a, b := sectionsText(parsed), sectionsText(trafficSections(ruleTexts(prog.Rules), prog.Fallback)); a != b {
+			return fmt.Errorf("assembled traffic document differs from the parsed one for %s:\n%s\n---\n%s", prog.OneLine(), a, b)
+		}
+	}
+	block := func(ts []string, fb string) string {
+		var b strings.Builder
+		for _, t := range ts {
+			b.WriteString("      " + t + "\n")
+		}
+		b.WriteString("      fallback: " + fb + "\n")
+		return b.String()
+	}
+	n := max(len(d.req), len(d.resp))
+	for i := 0; i < n; i++ {
+		rq := []string{d.req[i%len(d.req)].text, d.req[(i+3)%len(d.req)].text}
+		rp := []string{d.resp[i%len(d.resp)].text, d.resp[(i+5)%len(d.resp)].text}
+		parsed, err := config_parser.Parse(dnsConfText(block(rq, reqFallback), block(rp, respFallback)))
+		if err != nil {
+			return fmt.Errorf("dns lists do not parse: %v: %v / %v", err, rq, rp)
+		}
+		if a, b := sectionsText(parsed), sectionsText(dnsSections(rq, reqFallback, rp, respFallback)); a != b {
+			return fmt.Errorf("assembled dns document differs from the parsed one for %v / %v:\n%s\n---\n%s", rq, rp, a, b)
+		}
+	}
+	return nil
 }
